@@ -11,15 +11,26 @@ PID = "C16"
 HEADER = "From TV Require Import Base Model.Wiring Oracle.WiringCheck."
 
 
-def cn(k): return f"c{k}"
-def pn(k): return f"p{k}"
-def ci(s): return int(s[1:])
+# how component / port numbers are spelt: identifiers are arbitrary strings; with "colon" names (EPICS style) different
+# (component, port) pairs read the same once joined by ':' -- ("a", "b:c") and ("a:b", "c") -- and stay different ports
+SPELL = {
+    "plain": (lambda k: f"c{k}", lambda k: f"p{k}"),
+    "colon": (lambda k: "a" + ":b" * (k - 1), lambda k: "b:" * (k - 1) + "c"),
+}
 
 
-def observe(kind, data):
+def observe(kind, data, naming="plain"):
     """kind 'iw': data = {ic: {ip: (oc, op)}} ; kind 'w': data = {oc: {op: [(ic, ip)]}} (ints)"""
     from tickit.core.management.event_router import EventRouter, InverseWiring, Wiring
     from tickit.core.typedefs import ComponentPort
+
+    cn, pn = SPELL[naming]
+    cback = {cn(k): k for k in range(1, 40)}
+    pback = {pn(k): k for k in range(1, 40)}
+
+    def ci(x):
+        return cback[x] if x in cback else pback[x]
+    # (a name is never both: component names start with "a", port names with "b"/"c" or "p")
 
     if kind == "iw":
         iw = InverseWiring({cn(ic): {pn(ip): ComponentPort(cn(oc), pn(op)) for ip, (oc, op) in ins.items()}
@@ -153,8 +164,8 @@ REASONS = {1: "wiring-connections-differ", 2: "wiring-keys-differ", 3: "inverse-
            10: "roundtrip-from-inverse-loses-or-invents", 11: "roundtrip-from-wiring-loses-or-invents"}
 
 
-def evaluate(cases):
-    obs = [observe(k, d) for k, d in cases]
+def evaluate(cases, naming="plain"):
+    obs = [observe(k, d, naming) for k, d in cases]
     terms = [render(k, d, o) for (k, d), o in zip(cases, obs)]
     return obs, run_shards(PID, HEADER, "case", "check", terms, shard_size=600)
 
@@ -174,6 +185,17 @@ def main(tier, seed):
                "dependants of every component (and of an unknown one) and route() on 3 change sets per output component "
                "are compared with the Coq model; non-trivial = at least 2 connections")
     obs, bad = evaluate(cases)
+    # the same wirings with names containing the ':' separator, chosen so that different (component, port) pairs join to
+    # the same "component:port" string
+    cl_cases = cases[:n_ex][::4] + cases[n_ex:][:500]
+    cl_obs, cl_bad = evaluate(cl_cases, naming="colon")
+    ck.evaluations += len(cl_cases)
+    ck.coverage["wirings_with_colon_names"] = len(cl_cases)
+    for i in sorted(cl_bad):
+        code = cl_bad[i][0]
+        ck.report(REASONS[code] + "-with-colons-in-names", f"event_router disagrees with the wiring model when names contain ':' ({REASONS[code]})",
+                  dict(kind=cl_cases[i][0], naming="colon", wiring=cl_cases[i][1], observed=cl_obs[i], codes=cl_bad[i]))
+        break
     for (k, d), o in zip(cases, obs):
         ck.count(json.dumps([k, sorted(o["w_conns"]), o["w_keys"]]), nontrivial(k, d, o))
     ck.sample(dict(kind=cases[-1][0], wiring=cases[-1][1], observed=obs[-1]))
@@ -198,7 +220,7 @@ def replay(rp):
         data = {int(ic): {int(ip): tuple(s) for ip, s in ins.items()} for ic, ins in data.items()}
     else:
         data = {int(oc): {int(op): [tuple(t) for t in tg] for op, tg in outs.items()} for oc, outs in data.items()}
-    obs, bad = evaluate([(kind, data)])
+    obs, bad = evaluate([(kind, data)], naming=rp.get("naming", "plain"))
     print("wiring:", kind, data)
     print("observed:", obs[0])
     print("codes:", bad.get(0, []))
